@@ -74,12 +74,15 @@ class Builder:
                 kw["dest"] = getattr(b.roles, s["dest"])
             b.add(h.Signal(name=s["n"], width=s["w"], **kw))
         for sub in bd["subs"]:
-            bi = self.bundle(sub["of"])()
+            kw = {}
+            if sub.get("role"):
+                kw["role"] = getattr(self.bundle(sub["of"]).roles, sub["role"])
+            bi = self.bundle(sub["of"])(**kw)
             if sub.get("flipped"):
                 if sub.get("flipstyle") == "fn":
                     bi = h.flipped(bi)
                 else:
-                    bi = self.bundle(sub["of"])(flipped=True)
+                    bi = self.bundle(sub["of"])(flipped=True, **kw)
             b.add(bi, name=sub["n"])
         self.bundles[name] = b
         return b
